@@ -113,6 +113,10 @@ pub fn cases(thorough: bool) -> Vec<ECase> {
         // remembered, larger limits
         let t4 = ticket.clone();
         add("0rtt-accepted-lower-limits".into(), &move |c| { c.ticket = Some(t4.clone()); c.accept_early = true; c.server.max_uni = Some(2); c.server.max_bidi = Some(1); c.server.recv_window = Some(3000); c.server.stream_recv_window = Some(900); }, Plan { early: true, ..plan(vec![sp(Dir::Uni, 20_000, 1000), sp(Dir::Bi, 6000, 700), sp(Dir::Uni, 3000, 500), sp(Dir::Uni, 500, 500)]) }, Plan { echo_len: Some(50), ..Default::default() }, vec![], (0, 24));
+        // ... also when what fits into the first flight stays inside the new limits and only the
+        // writes after the handshake would exceed them
+        let t5 = ticket.clone();
+        add("0rtt-accepted-lower-limits-late-excess".into(), &move |c| { c.ticket = Some(t5.clone()); c.accept_early = true; c.server.recv_window = Some(15_000); c.server.stream_recv_window = Some(15_000); }, Plan { early: true, ..plan(vec![sp(Dir::Uni, 60_000, 1000)]) }, Plan::default(), vec![], (0, 24));
         let mut small = PairCfg::default();
         small.server.max_uni = Some(2);
         small.server.max_bidi = Some(1);
